@@ -66,7 +66,10 @@ def describe(tier):
 def shards(tier):
     out = []
     for syn in BOUNDS[tier]['syntaxes']:
-        keys = sorted(Config({'type': 'stylesheet', 'syntax': syn}).snippets)
+        # every `|`-separated name of every key of the raw built-in table (split here, not by emmet), plus whatever else the
+        # effective table holds
+        from emmet.snippets import css as RAW
+        keys = sorted(set(Config({'type': 'stylesheet', 'syntax': syn}).snippets) | set(n for k in RAW.snippets for n in k.split('|')))
         for i in range(0, len(keys), 8):
             out.append(dict(syntax=syn, keys=keys[i:i + 8]))
     return out
@@ -77,6 +80,16 @@ def ex(abbr, cfg):
         return expand(abbr, cfg)
     except Exception as e:
         return 'EXC:%s:%s' % (type(e).__name__, str(e)[:80])
+
+
+def empty_calls(alts):
+    "alternatives listed as a function call without arguments, e.g. minmax(): typed by their name, written with the parentheses"
+    out = []
+    for alt in alts:
+        m = re.match(r'^([A-Za-z]+)\(\)$', alt.strip())
+        if m and m.group(1) not in out:
+            out.append(m.group(1))
+    return out
 
 
 def probes(syn, key, val):
@@ -119,13 +132,16 @@ def probes(syn, key, val):
             want = c[1] + between + w + after
             for form in (key + ':' + w, key + '-' + w, key + ':' + w.upper(), key + ':' + w.capitalize(), key + '-' + w.upper()):
                 yield 'keyword', form, {}, eq(want, 'keyword-not-resolved')
+        for w in empty_calls(c[2]):
+            for form in (key + ':' + w, key + '-' + w, key + ':' + w.upper()):
+                yield 'keyword-call', form, {}, eq(c[1] + between + w + '()' + after, 'keyword-not-resolved')
     # the violation class names the key, so that a known finding about one key never hides another key
     yield 'override', key, {'snippets': {key: 'foo-prop:bar'}}, eq('foo-prop' + between + 'bar' + after, 'user-override-ignored:key=' + key)
     yield 'override-raw', key, {'snippets': {key: 'raw ${1:body} text'}}, eq('raw body text', 'user-override-ignored:key=' + key)
     yield 'new-key', 'zzq', {'snippets': {'zzq': 'foo-prop:bar', key: val}}, eq('foo-prop' + between + 'bar' + after, 'new-key-unreachable')
     # user-defined property snippets of other shapes: vendor-prefixed / custom property names, several listed values
     for body, prop, first, kw in (('-webkit-foo:none|auto', '-webkit-foo', 'none', 'auto'), ('--my-var:red|blue', '--my-var', 'red', 'blue'),
-                                  ('foo:bar baz|qux', 'foo', 'bar baz', 'qux')):
+                                  ('foo:bar baz|qux', 'foo', 'bar baz', 'qux'), ('filter:blur()|none', 'filter', 'blur()', 'none')):
         yield 'override-shape', key, {'snippets': {key: body}}, eq(prop + between + first + after, 'user-override-ignored:key=' + key)
         yield 'new-key-shape', 'zzq', {'snippets': {'zzq': body, key: val}}, eq(prop + between + first + after, 'new-key-unreachable')
         yield 'new-key-keyword', 'zzq:' + kw, {'snippets': {'zzq': body, key: val}}, eq(prop + between + kw + after, 'new-key-keyword-not-resolved')
@@ -178,7 +194,15 @@ def run_probe(syn, abbr, extra):
 def run_shard(shard, ctx, tier):
     syn = shard['syntax']
     table = Config({'type': 'stylesheet', 'syntax': syn}).snippets
+    from emmet.snippets import css as RAW
+    raw = dict((n, v) for k, v in RAW.snippets.items() for n in k.split('|'))
+    val = ''
     for key in shard['keys']:
+        if table.get(key, '<absent>') != raw.get(key, table.get(key)):
+            ctx.violation('listed-name-not-in-the-effective-table', dict(syntax=syn, key=key, probe='raw-name', abbr=key),
+                          dict(expected=raw.get(key), actual=table.get(key, '<absent>')))
+        if key not in table:
+            continue
         val = table[key]
         for name, abbr, extra, pred in probes(syn, key, val):
             ctx.tick((syn, key, name, abbr))
@@ -200,6 +224,12 @@ def check_case(case):
     syn, key = case['syntax'], case['key']
     table = Config({'type': 'stylesheet', 'syntax': syn}).snippets
     out = []
+    if case['probe'] == 'raw-name':
+        from emmet.snippets import css as RAW
+        raw = dict((n, v) for k, v in RAW.snippets.items() for n in k.split('|'))
+        if table.get(key, '<absent>') != raw.get(key, table.get(key)):
+            return [('listed-name-not-in-the-effective-table', dict(expected=raw.get(key), actual=table.get(key, '<absent>')))]
+        return []
     for name, abbr, extra, pred in probes(syn, key, table[key]):
         if name == case['probe'] and abbr == case['abbr']:
             bad = pred(run_probe(syn, abbr, extra))
